@@ -85,6 +85,10 @@ func (e *Exec) initState() *State {
 		gd := e.P.CS.Ghosts[g]
 		k, t := e.specType("", gd.Type)
 		st.ghost[g] = e.freshVal("g_"+g, t, k)
+		if g == "slack" {
+			// scheduling slack is a non-negative constant of the environment
+			e.S.Assert(sx(">=", st.ghost[g].t(), "0"))
+		}
 	}
 	return st
 }
@@ -404,6 +408,9 @@ func generate(p *Prog, prop string, cover bool) *RunResult {
 	}
 	sort.Strings(rr.Notes)
 	sort.Strings(rr.Unsupported)
+	if prop != "" {
+		goCaptureSweep(p, prop, rr)
+	}
 	for _, n := range sortedKeys(p.CS.Externs) {
 		if xf := p.CS.Externs[n]; xf.Used {
 			rr.Trusted = append(rr.Trusted, "extern "+n+": assumed contract of a function outside the module")
